@@ -40,7 +40,7 @@ func specIsReserve(ccr *charging_datatype.AccountDebitRequest) bool {
 // A completed request leaves no connection behind, on every return path (C18).
 //@ func SendAccountDebitRequest [C18]
 //@   requires ue != nil && ccr != nil && ue.AbmfClient != nil
-//@   requires [C18 C20] factory.ChfConfig != nil && factory.ChfConfig.Configuration != nil && factory.ChfConfig.Configuration.AbmfDiameter != nil && factory.ChfConfig.Configuration.AbmfDiameter.Tls != nil
+//@   requires [C18 C20] factory.SpecValidated(factory.ChfConfig)
 //@   ensures ghostLiveConns == old(ghostLiveConns)
 //@   ensures assumed GhostRequests >= old(GhostRequests)
 //@   ensures [C11 C18] (result1 == nil) == (result0 != nil)
